@@ -125,6 +125,12 @@ func runGossip(seed int64, out string, traces, n, steps int, schedName, store st
 		lossy = true
 		schedName = schedName[6:]
 	}
+	// "rl-": the application's reply to a commit is lost now and then (nothing else is injected)
+	replyLoss := false
+	if len(schedName) > 3 && schedName[:3] == "rl-" {
+		replyLoss = true
+		schedName = schedName[3:]
+	}
 	nmangled := 0
 	var w *World
 	for t := 0; t < traces; t++ {
@@ -177,6 +183,10 @@ func runGossip(seed int64, out string, traces, n, steps int, schedName, store st
 				}
 			}
 			if nn == 1 {
+				if replyLoss && k > steps/5 && w.rng.Intn(25) == 0 && cn.nodes[0].app.loseReply == 0 {
+					cn.nodes[0].app.loseReply = 1 + w.rng.Intn(2)
+					nlost++
+				}
 				cn.MonologueStep(cn.nodes[0], full > 0 && k%full == 0)
 				continue
 			}
@@ -216,7 +226,7 @@ func runGossip(seed int64, out string, traces, n, steps int, schedName, store st
 					nfaults++
 				}
 			}
-			if faults && t%2 == 1 && k > steps/4 && w.rng.Intn(40) == 0 && cn.byNum[a].app.loseReply == 0 && !cn.byNum[a].app.lostFired {
+			if replyLoss && k > steps/5 && w.rng.Intn(25) == 0 && cn.byNum[a].app.loseReply == 0 {
 				// the application processes a block but its reply is lost (socket proxy
 				// hiccup): the node logs the error, keeps the block unsigned and goes on
 				cn.byNum[a].app.loseReply = 1 + w.rng.Intn(2)
